@@ -297,6 +297,17 @@ fn run_word(mode: ModeK, out: OutK, word: &[Op], term: Term) -> Result<Vec<usize
         };
         let clause = if clone_dropped && word.iter().rposition(|o| *o == Op::CloneDrop) < word.iter().rposition(|o| matches!(o, Op::W(_) | Op::WS)) { "lost-after-clone-drop" } else { clause };
         expect_all(&w, &accepted, clause, when)?;
+        // a rotation happens when a record is about to be written (no word rotates explicitly):
+        // no file is left empty
+        if matches!(out, OutK::FileNum | OutK::FileTsD) && !accepted.is_empty() {
+            let empty: Vec<String> = crate::family::list_names(&w.env.dir).into_iter().filter(|n| std::fs::metadata(w.env.dir.join(n)).is_ok_and(|m| m.is_file() && m.len() == 0)).collect();
+            if !empty.is_empty() {
+                return Err(Fail {
+                    clause: "rotated-without-a-record",
+                    detail: format!("{when}: empty files {empty:?} - a rotation took place although no record was about to be written"),
+                });
+            }
+        }
         drop(logger);
         let errs = w.env.errlines();
         if !errs.is_empty() {
